@@ -111,6 +111,8 @@ def compile_pat(p):
     if hs == 'agg':
         fs = []
         for a in args[1:]:
+            if a == ('...',):
+                continue        # aggregates only constrain the listed fields anyway
             fs.append((sym(a[0]), compile_pat(a[1])))
         return ('P:agg', sym(args[0])) + tuple(fs)
     if hs in ('or', 'and', 'phi'):
